@@ -211,7 +211,7 @@ func c02Refresh(gqm *GroupQuotaManager, name string, ev vu.Ev) {
 func c02TreeScript(rng *rand.Rand, n int) []c01Op {
 	g := &c01Gen{rng: rng, quotas: map[string]c01Op{}, pods: map[string]string{}, nq: 6, np: 8, big: false}
 	var out []c01Op
-	out = append(out, c01Op{Op: "node", Delta: map[string]int64{"cpu": int64(5 + rng.Intn(25)), "memory": int64(5 + rng.Intn(25))}})
+	out = append(out, c01Op{Op: "node", Delta: c01Milli(rng, map[string]int64{"cpu": int64(5 + rng.Intn(25)), "memory": int64(5 + rng.Intn(25))})})
 	for len(out) < n {
 		k := rng.Intn(20)
 		switch {
@@ -226,7 +226,7 @@ func c02TreeScript(rng *rand.Rand, n int) []c01Op {
 				out = append(out, o)
 			}
 		case k == 5:
-			out = append(out, c01Op{Op: "node", Delta: map[string]int64{"cpu": int64(rng.Intn(6)), "memory": int64(rng.Intn(6))}})
+			out = append(out, c01Op{Op: "node", Delta: c01Milli(rng, map[string]int64{"cpu": int64(rng.Intn(6)), "memory": int64(rng.Intn(6))})})
 		case k == 6:
 			out = append(out, c01Op{Op: "resetAll"})
 		case k < 12:
